@@ -209,6 +209,8 @@ def run(ck):
              "C11.4", short(gs) + ":forward", where(gs, fpa.node), "forward vector is the vectorisation of the map's own positions",
              found=T.show(fwd_t)[:160])
     window_arguments(ck, "C11.4")
+    from ..rules import role as R
+    R.run_role_rule(ck, "C11.4", modules={"src.correlation.optical_map"})
     gi = p.find_method("OpticalMap", "getInitialAlignment")
     seen_q = seen_r = False
     for pa in explore(ck, gi, unroll=(0, 1)):
